@@ -127,13 +127,19 @@ def ctor_units(prop):
     for shape, tys in (('int', (INT, INT)), ('float_min', (REAL, INT)), ('str_max', (INT, STR))):
         out.append(Unit(f'{prop}.gclmulchunker_ctor[{shape}]', ADAPTERS_PY, 'gclmulchunker.__init__',
                         ctor_setup({'min_length': tys[0], 'max_length': tys[1]}), chunker_ctor_post(prop, shape), prop=prop))
+        if shape == 'int':
+            out[-1].native = ('chunker_ctor',)          # scalar parameters: a counter-model is replayed on the real constructor
     for shape, ty in (('int', INT), ('str', STR), ('float', REAL)):
         out.append(Unit(f'{prop}.blake2b_ctor[{shape}]', ADAPTERS_PY, 'blake2b.__init__', ctor_setup({'length': ty}),
                         blake2b_ctor_post(prop, shape), prop=prop))
+        if shape == 'int':
+            out[-1].native = ('blake2b_ctor',)
     out.append(Unit(f'{prop}.sha2_ctor', ADAPTERS_PY, 'sha2.__init__', ctor_setup({'bits': INT}), bits_ctor_post(prop, 'sha2', (224, 256, 384, 512)), prop=prop))
     out.append(Unit(f'{prop}.sha3_ctor', ADAPTERS_PY, 'sha3.__init__', ctor_setup({'bits': INT}), bits_ctor_post(prop, 'sha3', (224, 256, 384, 512)), prop=prop))
     out.append(Unit(f'{prop}.aes_gcm_ctor', ADAPTERS_PY, 'aes_gcm.__init__', ctor_setup({'key_bits': INT, 'nonce_bits': INT}),
                     bits_ctor_post(prop, 'aes_gcm', (128, 192, 256)), prop=prop))
+    for u in out[-3:]:
+        u.native = ('bits_ctor', {'__class__': u.selector.split('.')[0]})
     return out
 
 
